@@ -1,6 +1,8 @@
 import DracoProps.C09
 import DracoProofs.EbAssignPoints
 import DracoProofs.EbEncCounts2
+import DracoProofs.EbCountsIso
+import DracoProofs.EbIsoCheck
 /-
   C09 for Edgebreaker, on the CORNER-TABLE models (DracoModel/EbConnectivity.lean `assignPoints`,
   DracoModel/EbEncoder.lean `computeNumberOfEncodedPoints`): closes, on the decoder's side, the gap of DracoProps/C09.lean
@@ -20,8 +22,9 @@ import DracoProofs.EbEncCounts2
     (`fanOfE`: swing-right walk from `vc[v]`, `closed = SwingLeft(vc[v]) ≠ invalid`), when the closedness test agrees with
     the walk (`ClosedOK`; derived from table invariants / `CornerTable.create` in DracoProofs/EbEncCounts2.lean:
     `computeNumberOfEncodedPoints_tbl`, `_create`, `_of_encode`); `= num_vertices − isolated` for ≤ 1 attribute.
-  Evaluated, not proved here: that the encoder's fans are the images of the decoder's under the checked isomorphism,
-  and `processed.size = num_faces − NumDegeneratedFaces` (`encodeConnectivity_faces` in DracoProofs/EbEncCounts.lean
+  * `eb_encoded_points_eq_decoded`: the two counts are EQUAL under the isomorphism of the tables, the correspondence of
+    the attribute vertices, H2, coverage and `hiso` (fans correspond: `CountsIso.fan_corr`).
+  Evaluated, not proved here: `processed.size = num_faces − NumDegeneratedFaces` (`encodeConnectivity_faces` in DracoProofs/EbEncCounts.lean
   proves `≤`, distinctness, non-degeneracy, and equality IFF every non-degenerate face is reached by the traversal);
   `counts-ok` compares both counts on every case.
 -/
@@ -104,5 +107,84 @@ example : (5 : Nat) = (exConn.ct.numVertices - exConn.ct.numIsolated) +
         obtain rfl | rfl | rfl | rfl : v = 0 ∨ v = 1 ∨ v = 2 ∨ v = 3 := by omega
         all_goals (unfold ClosedOK; decide +kernel))
     (by decide +kernel)
+
+open Draco.EbEnc.CountsIso Draco.EbEnc.EncCounts Draco.EbEnc.AttViews in
+/-- **C09, points, Edgebreaker: the number of points the encoder reports equals the number the decoder creates**
+    (more than one attribute): `ComputeNumberOfEncodedPoints` on the encoder's corner table (`hrunE`) against
+    `AssignPointsToCorners` on the decoder's (`hrunD`), under
+    `hF` (`FanHyps`): the base views are isomorphic (`TVIso`, from `ctIso`), the table invariants of both sides, a vertex the
+      decoder marks as hole lies on the boundary;
+    `hiff`: two decoder corners have the same vertex in attribute table `i` iff their images have (`eb_att_views_iso`);
+    `h2`: the decoder's seam flags are sound (H2 of `eb_point_count_fan`);
+    `hcov`: every encoder vertex with a left-most corner is the image of a decoder vertex (traversal coverage);
+    `hiso`: `num_vertices − NumIsolatedVertices` is the number of vertices with a left-most corner.
+    Proof: both counts are sums over the fans read off the corner tables (`eb_encoded_points_fans`, `eb_decoded_points_fans`),
+    the fans correspond (`fan_corr`: images under the corner map, up to rotation when closed; the counts only see the equality
+    pattern of the attribute vertices), and per fan encoder formula = decoder count (`eb_point_count_fan`). -/
+theorem eb_encoded_points_eq_decoded (atts : Array Attribute) (conn : ConnEnc) (used : Array AttConn) (nE : Nat)
+    (co : ConnOut) (n : Nat) (attsD : Array AttConn) (c2p : Array Nat) (nD tags : Nat) (φ ψ : Nat → Nat)
+    (hatts : atts.size > 1)
+    (hrunE : computeNumberOfEncodedPoints atts conn used = .ok nE)
+    (hne : attsD.isEmpty = false)
+    (hrunD : assignPoints co n attsD = .ok (c2p, nD, tags))
+    (hF : FanHyps n co conn.ct φ ψ)
+    (hiff : AttVertIff n attsD used φ)
+    (h2 : SeamFlagsSound co attsD)
+    (hcov : Coverage n conn.ct φ)
+    (hiso : conn.ct.numVertices - conn.ct.numIsolated = (usedVerts conn.ct.vc).length) :
+    nE = nD :=
+  CountsIso.eb_encoded_points_eq_decoded atts conn used nE co n attsD c2p nD tags φ ψ hatts hrunE hne hrunD hF hiff h2 hcov hiso
+
+section TetraExample
+open Draco.EbEnc.CountsIso Draco.EbEnc.EncCounts Draco.EbEnc.AttViews
+
+def tetraCT : CT := ⟨AP.tetra.c2v, AP.tetra.opp, AP.tetra.vc, 0, 0⟩
+def tetraConn : ConnEnc := { (default : ConnEnc) with ct := tetraCT }
+def tetraPhi : Nat → Nat := phi #[0, 3, 6, 9]
+def tetraPsi : Nat → Nat := fun v => (#[0, 1, 2, 3] : Array Nat)[v]!
+
+theorem tetraPhi_id (d : Nat) (h : d < 12) : tetraPhi d = d := by
+  have : ∀ d, d < 12 → tetraPhi d = d := by decide +kernel
+  exact this d h
+
+theorem tetraFanHyps : FanHyps 4 AP.tetra tetraCT tetraPhi tetraPsi where
+  iso := tvIsoCheck_sound _ _ _ #[0, 1, 2, 3] #[0, 1, 2, 3] #[0, 1, 2, 3, 4, 5, 6, 7, 8, 9, 10, 11] (by decide +kernel)
+  dec := AP.tetra_hyp
+  hole := by
+    intro v hv _ h
+    have hv' : v < 4 := hv
+    obtain rfl | rfl | rfl | rfl : v = 0 ∨ v = 1 ∨ v = 2 ∨ v = 3 := by omega
+    all_goals exact absurd h (by decide)
+  encB := ⟨by decide, by decide, by decide, by decide +kernel⟩
+  encVc := by decide +kernel
+  encLm := by
+    intro w hw _ _
+    have hw' : w < 4 := hw
+    obtain rfl | rfl | rfl | rfl : w = 0 ∨ w = 1 ∨ w = 2 ∨ w = 3 := by omega
+    all_goals exact AP.closed_of_period (J := 2) (by decide) (by decide)
+  encCov := by
+    intro d hd
+    have hd' : d < 12 := hd
+    rw [tetraPhi_id d hd']
+    obtain ⟨_, _, k, hk⟩ := AP.tetra_hyp.cover d hd
+    exact ⟨k, hk⟩
+
+theorem tetraEncRun : computeNumberOfEncodedPoints #[default, default] tetraConn #[exAtt] = .ok 4 := by decide +kernel
+
+/-- non-vacuity: the tetrahedron with one seamless attribute table, identity isomorphism: 4 = 4 points -/
+example : (4 : Nat) = 4 :=
+  eb_encoded_points_eq_decoded #[default, default] tetraConn #[exAtt] 4 AP.tetra 4 #[exAtt] _ 4 0 tetraPhi tetraPsi
+    (by decide) tetraEncRun rfl exAssign tetraFanHyps
+    (by
+      refine ⟨rfl, fun i hi c c' hc hc' => ?_⟩
+      rw [tetraPhi_id c hc, tetraPhi_id c' hc'])
+    (by
+      intro v hv
+      have hv' : v < 4 := hv
+      obtain rfl | rfl | rfl | rfl : v = 0 ∨ v = 1 ∨ v = 2 ∨ v = 3 := by omega
+      all_goals decide +kernel)
+    (by unfold Coverage; decide +kernel) (by decide +kernel)
+
+end TetraExample
 
 end Draco.C09Eb
